@@ -33,20 +33,20 @@ def _reader_funcs(ctx):
     return out
 
 
-def r1_copy(ctx):
-    ctx.rule("C14.R1", "the caller's table is copied before anything else; in-place operations only touch copies", 6)
+def r1_copy(ctx, rid="C14.R1"):
+    ctx.rule(rid, "the caller's table is copied before anything else; in-place operations only touch copies", 6)
     ix = ctx.ix
-    read = ix.func(f"{PKG}.abstract_dataframe_data_reader", "AbstractDataframeDataReader.read", "C14.R1")
+    read = ix.func(f"{PKG}.abstract_dataframe_data_reader", "AbstractDataframeDataReader.read", rid)
     cfg = CFG(read.node)
     p = [a.arg for a in read.node.args.args][1]
     copies = [n for n, st in cfg.stmt.items() if isinstance(st, ast.Assign) and U(st.targets[0]) == p and isinstance(st.value, ast.Call)
               and isinstance(st.value.func, ast.Attribute) and st.value.func.attr == "copy" and U(st.value.func.value) == p]
     if not copies:
-        ctx.violation("C14.R1", read, read.node, f"read() never rebinds `{p}` to a copy: cleaning steps modify the caller's table", construct="def read")
+        ctx.violation(rid, read, read.node, f"read() never rebinds `{p}` to a copy: cleaning steps modify the caller's table", construct="def read")
     else:
         c = copies[0]
         deep = kwarg(cfg.stmt[c].value, "deep")
-        ctx.check(deep is None or U(deep) == "True", "C14.R1", read, cfg.stmt[c], "deep copy", "shallow copy: in-place edits of values still reach the caller's table", construct="deep copy")
+        ctx.check(deep is None or U(deep) == "True", rid, read, cfg.stmt[c], "deep copy", "shallow copy: in-place edits of values still reach the caller's table", construct="deep copy")
         bad = None
         for n, st in cfg.stmt.items():
             if st is None or n == c:
@@ -58,7 +58,7 @@ def r1_copy(ctx):
                 continue
             if not cfg.dominates(c, n):
                 bad = st
-        ctx.check(bad is None, "C14.R1", read, cfg.stmt[c], "the copy dominates every other use of the table",
+        ctx.check(bad is None, rid, read, cfg.stmt[c], "the copy dominates every other use of the table",
                   f"`{U(bad)[:70] if bad else ''}` uses the caller's table before it is copied")
     # in-place operations in the reader classes
     for f in _reader_funcs(ctx):
@@ -81,19 +81,19 @@ def r1_copy(ctx):
         for node, root, how in sites:
             public = not f.name.startswith("_")
             if root in local_copies or _rebound_to_copy_before(f, root, node):
-                ctx.ok("C14.R1", f, node, f"{how} on `{root}`, a copy made in this function")
+                ctx.ok(rid, f, node, f"{how} on `{root}`, a copy made in this function")
             elif root in params and not public:
-                ctx.ok("C14.R1", f, node, f"{how} on the parameter of private `{f.name}` (only reached from read() after the copy)")
+                ctx.ok(rid, f, node, f"{how} on the parameter of private `{f.name}` (only reached from read() after the copy)")
             elif root in params:
-                ctx.violation("C14.R1", f, node, f"{how} on `{root}`, the table handed to public `{f.name}`: the caller's table is modified")
+                ctx.violation(rid, f, node, f"{how} on `{root}`, the table handed to public `{f.name}`: the caller's table is modified")
             else:
-                ctx.ok("C14.R1", f, node, f"{how} on local `{root}`")
+                ctx.ok(rid, f, node, f"{how} on local `{root}`")
     # private mutators are only called from inside the reader package
     for f in _reader_funcs(ctx):
         if f.name in ("_set_index", "_clean_index", "_check_TIME") and f.cls[1] in ("AbstractDataframeDataReader", "VisitDataframeDataReader"):
             callers = [g for g in ix.iter_funcs() for c in ast.walk(g.node) if isinstance(c, ast.Call) and isinstance(c.func, ast.Attribute) and c.func.attr == f.name
                        and not g.mod.startswith(PKG)]
-            ctx.check(not callers, "C14.R1", f, f.node, "mutating helper only called inside io.data", f"mutating helper called from {[g.qual for g in callers][:2]} without the copy of read()",
+            ctx.check(not callers, rid, f, f.node, "mutating helper only called inside io.data", f"mutating helper called from {[g.qual for g in callers][:2]} without the copy of read()",
                       construct=f"callers of {f.name}")
 
 
@@ -231,7 +231,7 @@ def r3_ordering(ctx):
               "the uniqueness test runs before the index (with rounded ages) is built: two visits that differ by less than the rounding are accepted as distinct")
     vs = ix.func(f"{PKG}.visit_dataframe_data_reader", "VisitDataframeDataReader._set_index", "C14.R3")
     vcfg = CFG(vs.node)
-    rnd = [n for n, st in vcfg.stmt.items() if isinstance(st, ast.Assign) and U(st.targets[0]) == "df['TIME']" and "round(" in U(st.value) and "time_rounding_digits" in U(st.value)]
+    rnd = [n for n, st in vcfg.stmt.items() if isinstance(st, ast.Assign) and U(st.targets[0]) in ("df['TIME']", "df.loc[:, 'TIME']") and "round(" in U(st.value) and "time_rounding_digits" in U(st.value)]
     sidx = [n for n, st in vcfg.stmt.items() if st is not None and any(isinstance(c, ast.Call) and isinstance(c.func, ast.Attribute) and c.func.attr == "set_index" and "'TIME'" in U(c) and "'ID'" in U(c)
                                                                         and U(c.func.value) == "df" for c in header_walk(st))]
     ctx.check(bool(rnd) and bool(sidx) and vcfg.dominates(rnd[0], sidx[0]), "C14.R3", vs, vcfg.stmt[rnd[0]] if rnd else vs.node, "TIME rounded (time_rounding_digits) before it becomes the index",
